@@ -176,6 +176,24 @@ EscChar(b) ==
 HtmlEscape(s) == Flatten([i \in 1..Len(s) |-> EscChar(s[i])])
 HasRawSpecial(s) == \E i \in 1..Len(s) : s[i] \in {60, 62, 39, 34}
 
+\* html.UnescapeString restricted to the five entities html.EscapeString produces (and &quot;);
+\* any other ampersand stays as it is
+Entities == << <<<<38, 108, 116, 59>>, <<60>>>>, <<<<38, 103, 116, 59>>, <<62>>>>, <<<<38, 97, 109, 112, 59>>, <<38>>>>,
+              <<<<38, 35, 51, 57, 59>>, <<39>>>>, <<<<38, 35, 51, 52, 59>>, <<34>>>>, <<<<38, 113, 117, 111, 116, 59>>, <<34>>>> >>
+RECURSIVE HtmlUnescape(_)
+HtmlUnescape(s) ==
+  IF s = <<>> THEN <<>>
+  ELSE IF Head(s) = 38 /\ \E k \in 1..Len(Entities) : IsPrefixOf(Entities[k][1], s)
+       THEN LET k == CHOOSE k \in 1..Len(Entities) : IsPrefixOf(Entities[k][1], s)
+            IN  Entities[k][2] \o HtmlUnescape(SubSeq(s, Len(Entities[k][1]) + 1, Len(s)))
+       ELSE <<Head(s)>> \o HtmlUnescape(Tail(s))
+\* is every ampersand of s either the start of one of those entities or followed by something that cannot start an entity?
+AmpersandsModelled(s) ==
+  \A i \in 1..Len(s) : s[i] = 38 =>
+     \/ \E k \in 1..Len(Entities) : IsPrefixOf(Entities[k][1], SubSeq(s, i, Len(s)))
+     \/ i = Len(s)
+     \/ ~((s[i + 1] >= 65 /\ s[i + 1] <= 90) \/ (s[i + 1] >= 97 /\ s[i + 1] <= 122) \/ s[i + 1] = 35)
+
 HexDigit(n) == IF n < 10 THEN 48 + n ELSE 55 + n        \* upper case
 UrlUnreserved(b) == (b >= 48 /\ b <= 57) \/ (b >= 65 /\ b <= 90) \/ (b >= 97 /\ b <= 122)
                     \/ b \in {45, 95, 46, 126}
